@@ -1343,8 +1343,12 @@ func runC15(c *Ctx) {
 			break
 		}
 		c15LockHistory(c, rt, pr, k)
-		if k == 0 && c.Thorough {
-			c15LockRace(c, rt, pr, 600)
+		if k == 0 {
+			trials := 100
+			if c.Thorough {
+				trials = 600
+			}
+			c15LockRace(c, rt, pr, trials)
 		}
 	}
 }
@@ -1462,13 +1466,13 @@ func c15LockHistory(c *Ctx, rt *core.Runtime, pr *c15Pair, n int) {
 	}
 	// simulated mrp processes 0..nproc-1; process 0 invoked and holds the lock.  objs[p] = what p has
 	// registered with util.RegisterSignalHandler (also when its attach was refused).
-	// Actions: L attach for writing (= LTS check, then write if it passed), U unlock, S die through the
+	// Actions: L attach for writing (= LTS acquire, then register if it succeeded), U unlock, S die through the
 	// handlers p registered, K die without any handler (SIGKILL), R an operator deletes _lock (only when
 	// no simulated process owns the pipestance).
 	nproc := 3 + c.Rng.Intn(4)
 	held := map[int]*core.Pipestance{0: ps0}
 	objs := map[int][]util.HandlerObject{0: c15NewObjects(before)}
-	coarse, fine := []string{"L0"}, []string{"C0", "W0"}
+	coarse, fine := []string{"L0"}, []string{"A0", "G0"}
 	got, gotFine := []string{"1"}, []string{"1", "1"}
 	usedKR := false
 	lockExists := func() bool {
@@ -1525,12 +1529,12 @@ func c15LockHistory(c *Ctx, rt *core.Runtime, pr *c15Pair, n int) {
 			np, err := c15Attach(rt, psdir, pr.a, false)
 			objs[p] = append(objs[p], c15NewObjects(snap)...)
 			coarse = append(coarse, fmt.Sprintf("L%d", p))
-			fine = append(fine, fmt.Sprintf("C%d", p))
+			fine = append(fine, fmt.Sprintf("A%d", p))
 			if err == nil {
 				held[p] = np
 				got = append(got, "1")
 				gotFine = append(gotFine, "1", "1")
-				fine = append(fine, fmt.Sprintf("W%d", p))
+				fine = append(fine, fmt.Sprintf("G%d", p))
 			} else {
 				got = append(got, "0")
 				gotFine = append(gotFine, "0")
@@ -1545,13 +1549,13 @@ func c15LockHistory(c *Ctx, rt *core.Runtime, pr *c15Pair, n int) {
 		if len(held) > 1 {
 			r.violate(Violation{Kind: "property", Key: "C15:two-writers", What: "two runtimes own the same pipestance for writing",
 				Input:  map[string]interface{}{"history": strings.Join(fine, ","), "program": pr.a.text},
-				Broken: "theorem Props.C15.lts_mutual_exclusion_partial"})
+				Broken: "theorem Props.C15.lts_mutual_exclusion"})
 			break
 		}
 		if len(held) == 1 && !lockExists() {
 			r.violate(Violation{Kind: "property", Key: "C15:owner-without-lock-file", What: "a live owner exists but _lock does not",
 				Input:  map[string]interface{}{"history": strings.Join(fine, ","), "program": pr.a.text},
-				Broken: "theorem Props.C15.lts_mutual_exclusion_partial"})
+				Broken: "theorem Props.C15.lts_mutual_exclusion"})
 			break
 		}
 	}
@@ -1559,7 +1563,7 @@ func c15LockHistory(c *Ctx, rt *core.Runtime, pr *c15Pair, n int) {
 	r.count("lock\x00"+strings.Join(fine, ","), true)
 	r.hist("lock-histories")
 	r.hist(fmt.Sprintf("lock-history-actors=%d", nproc))
-	if rep, want := c.Drv.Ask("C15.lts", strings.Join(fine, ",")), strings.Join(append(append(gotFine, tail...), "0"), " "); rep != want {
+	if rep, want := c.Drv.Ask("C15.lts", strings.Join(fine, ",")), strings.Join(append(append(gotFine, tail...), fmt.Sprint(len(held))), " "); rep != want {
 		r.violate(Violation{Kind: "correspondence", Key: "C15:lock-lts-mismatch", What: "attach/unlock/signal/kill/rm history on a real pipestance differs from the Lean lock LTS (under the regenerated fact c15RegisterFirst)",
 			Input: strings.Join(fine, ","), Impl: want, Model: rep, Broken: "correspondence C15.lts (Martian.LockLTS.step)"})
 	}
@@ -1581,10 +1585,10 @@ func c15LockHistory(c *Ctx, rt *core.Runtime, pr *c15Pair, n int) {
 }
 
 // c15LockRace: two overlapping Lock() calls on an unlocked pipestance (goroutines released
-// together).  Lock() is check-then-write, so both can succeed; timing dependent.
+// together).  The lock file is created exclusively, so exactly one of them must win, every time.
 func c15LockRace(c *Ctx, rt *core.Runtime, pr *c15Pair, trials int) {
 	r := c.Res
-	both := 0
+	both, none := 0, 0
 	for i := 0; i < trials; i++ {
 		psdir := filepath.Join(c.Scratch, fmt.Sprintf("race%06d", i))
 		ps, err := rt.InvokePipeline(pr.a.inv, filepath.Join(pr.a.dir, "invocation.mro"), "ps", psdir,
@@ -1596,34 +1600,56 @@ func c15LockRace(c *Ctx, rt *core.Runtime, pr *c15Pair, trials int) {
 		var wg sync.WaitGroup
 		start := make(chan struct{})
 		var got [2]*core.Pipestance
+		var errs [2]error
 		for k := 0; k < 2; k++ {
 			wg.Add(1)
 			go func(k int) {
 				defer wg.Done()
 				<-start
-				if p2, err := c15Attach(rt, psdir, pr.a, false); err == nil {
-					got[k] = p2
-				}
+				got[k], errs[k] = c15Attach(rt, psdir, pr.a, false)
 			}(k)
 		}
 		close(start)
 		wg.Wait()
-		if got[0] != nil && got[1] != nil {
-			both++
+		winners := 0
+		for k := range got {
+			if errs[k] == nil {
+				winners++
+			} else {
+				var le *core.PipestanceLockedError
+				if !errors.As(errs[k], &le) {
+					r.note("lock race: an attach failed with something else than PipestanceLockedError: %v", errs[k])
+				}
+			}
 		}
-		for _, g := range got {
-			if g != nil {
-				g.Unlock()
+		if winners == 2 {
+			both++
+		} else if winners == 0 {
+			none++
+		}
+		_, lockErr := os.Stat(filepath.Join(psdir, "_lock"))
+		if winners == 1 && lockErr != nil {
+			none++
+		}
+		for k := range got {
+			if errs[k] == nil {
+				got[k].Unlock()
 			}
 		}
 		os.RemoveAll(psdir)
+		r.Evals++
 	}
 	r.hist(fmt.Sprintf("lock-race-trials=%d", trials))
 	if both > 0 {
-		r.violate(Violation{Kind: "property", Key: "C15:lock-check-then-write-race",
-			What:  fmt.Sprintf("two overlapping ReattachToPipestance calls for writing BOTH succeeded in %d of %d trials (Pipestance.Lock checks for _lock and then writes it with os.WriteFile, not O_EXCL)", both, trials),
-			Input: map[string]interface{}{"history": "C1,C2,W1,W2", "program": pr.a.text}, Impl: both, Expect: 0,
-			Broken: "theorem Props.C15.lts_mutual_exclusion_partial without its no-overlap hypothesis (negative witness lts_check_then_write_race)"})
+		r.violate(Violation{Kind: "property", Key: "C15:lock-race-two-winners",
+			What:  fmt.Sprintf("two overlapping ReattachToPipestance calls for writing BOTH succeeded in %d of %d trials", both, trials),
+			Input: map[string]interface{}{"history": "two Lock() calls released together on an unlocked pipestance", "program": pr.a.text}, Impl: both, Expect: 0,
+			Broken: "theorem Props.C15.lts_mutual_exclusion (acquire is not atomic: see lock_file_created_exclusively / lts_check_then_write_race)"})
+	}
+	if none > 0 {
+		r.violate(Violation{Kind: "property", Key: "C15:lock-race-no-winner",
+			What:  fmt.Sprintf("of two overlapping attaches on an unlocked pipestance neither ended up owning it (or the winner has no _lock) in %d of %d trials", none, trials),
+			Input: map[string]interface{}{"program": pr.a.text}, Impl: none, Expect: 0})
 	}
 }
 
